@@ -588,8 +588,8 @@ theorem sameShape_nbhdMask (s : State) (k : Nat) (geom : Option Bool) (torus : B
 
 theorem WF_step {s : State} (h : WF s) (op : Op) : WF (step s op).1 := by
   cases op with
-  | create n dt d => exact WF_create h n dt d
-  | newLayer n dims dt d => exact WF_newLayer h n dims dt d
+  | create n dt d => exact WF_create h n dt (d.resolve dt)
+  | newLayer n dims dt d => exact WF_newLayer h n dims dt (d.resolve dt)
   | attach l => exact WF_attach h l
   | detach n => exact WF_detach h n
   | layerSet l c v => exact h.of_sameShape (sameShape_layerSet ..)
